@@ -338,6 +338,7 @@ def rule_record_consistent(ctx, R, cfg=REAL, rule='record-consistent'):
             continue
         rec, outs = tr
         recd, unrec = 0, []
+        altered = []
         for o in outs:
             kind, tag = _emission(o.ret)
             if kind != 'val':
@@ -348,6 +349,13 @@ def rule_record_consistent(ctx, R, cfg=REAL, rule='record-consistent'):
             m = re.match(r'(?:try:)?call:([A-Za-z_0-9]+)@(\d+)', ntag)
             head = sm.get((m.group(1), m.group(2))) if m else None
             toks = _TOK.findall(tag)
+            nested_only = head not in R.prims and any(sm.get(t) in R.prims for t in toks) and not \
+                any(norm_tag(x) == ntag for _, val, _l in R.record_events(o) for x in leaves(val)) and not \
+                (head is not None and in_crates(head, cfg) and R.returns_recorded(head))
+            if nested_only and head is not None and in_crates(head, cfg) and cfg.batch_type in ((f.sig(head) or [''])[0]):
+                # the recorded poll is handed to another batch-returning function of the crate and ITS result is what leaves: whatever that
+                # function does to the batch (truncate to a fetch limit, filter, replace) happens after the rows were counted
+                altered.append((ntag, head))
             recorded = head in R.prims or any(sm.get(t) in R.prims for t in toks) or \
                 any(norm_tag(x) == ntag for _, val, _l in R.record_events(o) for x in leaves(val)) or \
                 (head is not None and in_crates(head, cfg) and R.returns_recorded(head))
@@ -366,7 +374,11 @@ def rule_record_consistent(ctx, R, cfg=REAL, rule='record-consistent'):
             continue
         n += 1
         ctx.analysed_fns.add(d)
-        if unrec:
+        if altered:
+            ctx.fail(rule, d, ctx.loc(rec), 'the poll is recorded and then passed to %s, whose result is what the stream returns: the batch can still be changed after its rows '
+                     'were counted (output_rows / output_bytes would differ from what is emitted); record the poll last' % altered[0][1].rsplit('::', 1)[-1],
+                     key='%s|%s|recorded-then-altered' % (rule, d))
+        elif unrec:
             ctx.fail(rule, d, ctx.loc(rec), 'this function records the batch it hands out on %d path(s) but also builds and returns a batch (%s) on %d path(s) '
                      'without recording it: rows that leave through that path are missing from output_rows' % (recd, unrec[0][:60], len(unrec)),
                      key='%s|%s' % (rule, d))
@@ -551,8 +563,10 @@ def selftest(ctx, probe):
     n0 = len(probe.viol)
     rule_record_consistent(probe, R2, cfg, rule='st-consistent')
     keys = [v['key'] for v in probe.viol[n0:]]
-    ctx.selftest('record-consistent detects a function that records one emission arm and forgets another (Spilly::bad_poll_inner), accepts good_poll_inner',
-                 any('bad_poll_inner' in k for k in keys) and not any('good_poll_inner' in k for k in keys))
+    ctx.selftest('record-consistent detects a function that records one emission arm and forgets another (Spilly::bad_poll_inner), accepts good_poll_inner; '
+                 'and a poll that is recorded and then truncated (Trunc), not Good',
+                 any('bad_poll_inner' in k for k in keys) and not any('good_poll_inner' in k for k in keys) and
+                 any('Trunc' in k and 'recorded-then-altered' in k for k in keys) and not any('Good' in k for k in keys))
     n0 = len(probe.viol)
     rule_one_recorder_per_path(probe, cfg)
     keys = [v['key'] for v in probe.viol[n0:]]
